@@ -112,6 +112,14 @@ func checkWriter(dir string, c writerCase) error {
 				}
 			case "rename":
 				os.Rename(path, path+".moved-by-test")
+			case "restart":
+				// the process is restarted: a new writer instance on the same path
+				w.Sync()
+				w.Close()
+				w, err = filech.OpenRotateFile(path, 0600, c.Max)
+				if err != nil {
+					return fmt.Errorf("infra: reopen: %v", err)
+				}
 			}
 		}
 		var buf bytes.Buffer
@@ -270,7 +278,7 @@ func TestWriterSampled(t *testing.T) {
 		}
 		return
 	}
-	r.Rule("rotating writer sampled: max in {1024, 4096, 1 MiB}, 1..12 writes of 1..40 lines (lengths around the boundary and random), 500 KiB batches, external removal / rename of the live file between writes")
+	r.Rule("rotating writer sampled: max in {1024, 4096, 1 MiB}, 1..12 writes of 1..40 lines (lengths around the boundary and random), 500 KiB batches, external removal / rename of the live file and restart (new writer instance on the same path) between writes")
 	r.Rapid(t, "TestWriterSampled", r.Pick(1500, 15000), func(rt *rapid.T) {
 		max := rapid.SampledFrom([]int{1024, 1024, 4096, 4096, 1 << 20}).Draw(rt, "max")
 		c := writerCase{Max: int64(max)}
@@ -294,7 +302,7 @@ func TestWriterSampled(t *testing.T) {
 			c.Writes = append(c.Writes, batch)
 		}
 		if rapid.IntRange(0, 3).Draw(rt, "fault") == 0 && nw > 1 {
-			c.Fault = rapid.SampledFrom([]string{"remove", "rename"}).Draw(rt, "faultkind")
+			c.Fault = rapid.SampledFrom([]string{"remove", "rename", "restart", "restart"}).Draw(rt, "faultkind")
 			c.FaultAt = rapid.IntRange(1, nw-1).Draw(rt, "faultat")
 		}
 		fp := ""
@@ -419,13 +427,22 @@ func checkChannels(dir string, cases []chanCase) (int, error) {
 		if c.Broken {
 			continue
 		}
+		lastTotal := -1
 		for {
 			ids, desc, err := scanEvents(insts[i].path, c.Max)
 			total := 0
 			for _, n := range ids {
 				total += n
 			}
-			if err == nil && total < len(c.Sizes) && time.Now().Before(deadline) {
+			if total != lastTotal {
+				// still being written: the wait is for quiescence, not a fixed time
+				lastTotal = total
+				if d := time.Now().Add(6 * time.Second); d.After(deadline) {
+					deadline = d
+				}
+			}
+			if (err != nil || total < len(c.Sizes)) && time.Now().Before(deadline) {
+				// a line being written right now reads as incomplete: look again
 				time.Sleep(100 * time.Millisecond)
 				continue
 			}
@@ -468,9 +485,16 @@ func TestChannel(t *testing.T) {
 		for i := 0; i < per; i++ {
 			c := chanCase{Max: int64(rapid.SampledFrom([]int{1024, 1024, 4096}).Draw(rt, "max"))}
 			n := rapid.IntRange(1, 60).Draw(rt, "n")
+			heavy := i < 2 // a sustained burst well beyond the writer's 500 KiB batch threshold
+			if heavy {
+				n = rapid.IntRange(1200, 1800).Draw(rt, "heavy")
+			}
 			total := 0
 			for j := 0; j < n; j++ {
 				s := rapid.OneOf(rapid.IntRange(0, 200), rapid.SampledFrom([]int{900, 940, 950, 960, 1000, 1100, 2100, 4000})).Draw(rt, "size")
+				if heavy {
+					s = 700 + j%300
+				}
 				c.Sizes = append(c.Sizes, s)
 				total += s + 90
 			}
